@@ -748,6 +748,13 @@ def non_value(v, depth=0):
     return None
 
 
+def non_value_kind(why):
+    if why.startswith("a complex"): return "complex"
+    if why.startswith("a non-finite"): return "non-finite"
+    if why.startswith("None"): return "None"
+    return "object-state"
+
+
 def check_probe(api, fn, label, call, check_state=True, shapes=None):
     """an ill-typed call must raise TypeError or ValueError"""
     o = run_call(api, call, check_state=check_state)
@@ -766,8 +773,8 @@ def check_probe(api, fn, label, call, check_state=True, shapes=None):
                 why = "None (no documented call of this function returns None)"
         if why:
             res = "non-value"
-            out.append(finding("returns-non-value:" + fn.key, "%s with %s silently returns %s instead of raising TypeError/ValueError" % (
-                fn.key, label, why), call))
+            out.append(finding("returns-non-value:%s:%s:%s" % (fn.key, label.split("=")[0], non_value_kind(why)),
+                               "%s with %s silently returns %s instead of raising TypeError/ValueError" % (fn.key, label, why), call))
     else:
         res = classify_exc(o.exc)
         if res != "ok":
@@ -1288,7 +1295,8 @@ def check_boundary(api, fn, pname, call, shapes):
         if rec is not None and "None" not in rec and fn.key not in DOCUMENTED_NONE:
             why = "None (no documented call of this function returns None)"
     if why:
-        out.append(finding("returns-non-value:" + fn.key, "%s silently returns %s at a boundary value of '%s'" % (fn.key, why, pname), call))
+        out.append(finding("returns-non-value:%s:%s:%s" % (fn.key, pname, non_value_kind(why)),
+                           "%s silently returns %s at a boundary value of '%s'" % (fn.key, why, pname), call))
     elif fn.kind != "ctor":
         if rtype_ok(api, fn, o1.result) is False and not (o1.result is None and fn.key in DOCUMENTED_NONE):
             out.append(finding("wrong-result-type:" + fn.key, "%s returns %s at a boundary value of '%s', documented :rtype: %s" % (
